@@ -111,11 +111,14 @@ def has_exact_tie(matcher):
 
 
 def history_dependent(cfg):
-    """Is the transition model more than first order?  avoid_goingback looks at the state before the
-    predecessor; the distance family accumulates d_o/d_s over a run of non-emitting states."""
+    """Does what happens after a state depend on more than that state?  avoid_goingback looks at the
+    state before the predecessor; with non-emitting states on, the search skips nodes already visited
+    in the current chain of non-emitting states (`_node_in_prev_ne` walks the predecessors) and the
+    distance family accumulates d_o/d_s over the run - so which of two equally probable predecessors
+    won an entry changes what can follow."""
     if cfg.get("avoid_goingback", True):
         return True
-    return cfg.get("family") == "distance" and cfg.get("non_emitting_states", True)
+    return bool(cfg.get("non_emitting_states", True))
 
 
 def tie_upstream(cfg, *sessions):
